@@ -9,6 +9,9 @@ import (
 )
 
 func TestObsHashToy(t *testing.T) {
+	if testing.Short() {
+		t.Skip("long")
+	}
 	var x *int32
 	sc := &vs.Scenario{Name: "obs", Bounds: vs.Bounds{P: -1}, Cfg: vs.Config{StateHash: func() uint64 {
 		if x == nil {
